@@ -172,15 +172,22 @@ Definition tst0 : tst := mkT ist0 None.
 
 Variable wait : Z.
 
-Definition tpush (stale : bool) (now : Z) (ts : tst) (bytes : list Z) : option (list event * tst) :=
+(* [ht]: the time every key / mouse handler of the application takes (the clock advances by ht
+   for every event emitted).  get_keys reads the clock when the drain loop meets AGAIN, i.e.
+   AFTER the handlers of the keys it found have run.  [early] = true is the seeded variant that
+   reads the clock at the top of get_keys, charging the handlers' time to the partial sequence
+   (exact for a push that is drained in one go).  The third component is the clock after the push. *)
+Definition tpush (stale early : bool) (ht : Z) (now : Z) (ts : tst) (bytes : list Z) : option (list event * tst * Z) :=
   match push_bytes (t_in ts) bytes with
   | None => None
   | Some (evs, s') =>
+      let now' := now + ht * Z.of_nat (length evs) in
+      let base := if early then now else now' in
       let d := if i_armed s'
-               then (if stale then match t_deadline ts with Some d0 => Some d0 | None => Some (now + wait) end
-                     else Some (now + wait))
+               then (if stale then match t_deadline ts with Some d0 => Some d0 | None => Some (base + wait) end
+                     else Some (base + wait))
                else None in
-      Some (evs, mkT s' d)
+      Some (evs, mkT s' d, now')
   end.
 
 (* tickit_term_input_check_timeout_msec as the event loop polls it: -1 when no deadline runs,
@@ -193,18 +200,18 @@ Definition tpoll (now : Z) (ts : tst) : option Z :=
   end.
 
 (* chunks delivered with a gap after each, the loop polling the time-out after every gap *)
-Fixpoint timed_run (stale : bool) (now : Z) (ts : tst) (steps : list (list Z * Z))
+Fixpoint timed_run (stale early : bool) (ht : Z) (now : Z) (ts : tst) (steps : list (list Z * Z))
   : option (list event * list Z * tst) :=
   match steps with
   | [] => Some ([], [], ts)
   | (c, gap) :: r =>
-      match tpush stale now ts c with
+      match tpush stale early ht now ts c with
       | None => None
-      | Some (evs, ts1) =>
-          match tpoll (now + gap) ts1 with
+      | Some (evs, ts1, now1) =>
+          match tpoll (now1 + gap) ts1 with
           | None => None
           | Some m =>
-              match timed_run stale (now + gap) ts1 r with
+              match timed_run stale early ht (now1 + gap) ts1 r with
               | None => None
               | Some (evs2, ms, ts2) => Some (evs ++ evs2, m :: ms, ts2)
               end
